@@ -78,7 +78,7 @@ async fn to<F: Future>(d: Duration, what: &str, f: F) -> Result<F::Output, Strin
     tokio::time::timeout(d, f).await.map_err(|_| format!("timeout:{what}"))
 }
 
-struct Case { path: String, limit: Option<u64>, flen: u64, id: u64, qlen: Option<u64> }
+struct Case { path: String, limit: Option<u64>, flen: u64, id: u64, qlen: Option<u64>, ec: u32 }
 
 /// aborts the per-case server tasks when the case is over
 struct Tasks(Vec<tokio::task::JoinHandle<()>>);
@@ -147,10 +147,16 @@ async fn run_server_path(c: &Case) -> Result<String, String> {
     let push_res: Arc<Mutex<Option<Result<(), String>>>> = Arc::new(Mutex::new(None));
     let (nb, pr) = (notify_body.clone(), push_res.clone());
     let rlen = if is_notify { 2 } else { blen };
+    // ec != 0: the handler fails with that code; the error response's body is the message (UTF-8)
+    let ec = c.ec;
+    let code = if ec == 0 { None } else { Some(repe::ErrorCode::try_from(ec).map_err(|_| "badcase:ec".to_string())?) };
+    if code.is_some() && is_notify { return Err("badcase:ec-on-notify".into()); }
+    let answer = move || -> Result<Value, (repe::ErrorCode, String)> { match code { None => Ok(Value::String("a".repeat(rlen - 2))), Some(k) => Err((k, "e".repeat(rlen))) } };
+    let (a1, a2, a3, a4) = (answer.clone(), answer.clone(), answer.clone(), answer.clone());
     let router = Router::new()
         .with_json("/k", |_| Ok(json!(1)))
-        .with_json("/r", move |_| Ok(Value::String("a".repeat(rlen - 2))))
-        .with_json_blocking("/b", move |_| Ok(Value::String("a".repeat(rlen - 2))))
+        .with_json("/r", move |_| a1())
+        .with_json_blocking("/b", move |_| a2())
         .with_json_ctx("/p", move |ctx, _| {
             let r = match ctx.peer() {
                 Some(p) => p.send_notify("/n", NotifyBody::Raw((*nb).clone(), BodyFormat::RawBinary)).map_err(|e| e.to_string()),
@@ -162,8 +168,8 @@ async fn run_server_path(c: &Case) -> Result<String, String> {
     // the long route of this case (the router must know it before the server starts)
     let router = match (c.qlen, c.path.as_str()) {
         (None, _) => router,
-        (Some(_), "offreader") => router.with_json_blocking(&route, move |_| Ok(Value::String("a".repeat(rlen - 2)))),
-        (Some(_), _) => router.with_json(&route, move |_| Ok(Value::String("a".repeat(rlen - 2)))),
+        (Some(_), "offreader") => router.with_json_blocking(&route, move |_| a3()),
+        (Some(_), _) => router.with_json(&route, move |_| a4()),
     };
 
     let too_large = Arc::new(AtomicUsize::new(0));
@@ -201,7 +207,13 @@ async fn run_server_path(c: &Case) -> Result<String, String> {
 
     // the message under test
     let expected: Vec<u8> = match c.path.as_str() {
-        "inline" | "proxy" | "offreader" => { peer.send(frame(0, c.id, 1, 2, 0, route.as_bytes(), b"null")).await?; frame(0, c.id, 1, 2, 0, route.as_bytes(), &json_string_body(blen)) }
+        "inline" | "proxy" | "offreader" => {
+            peer.send(frame(0, c.id, 1, 2, 0, route.as_bytes(), b"null")).await?;
+            if c.ec == 0 { frame(0, c.id, 1, 2, 0, route.as_bytes(), &json_string_body(blen)) }
+            // an error response is built by create_error_response_like: the request's query is echoed
+            // but the query-format field keeps the builder's default (0)
+            else { frame(0, c.id, 0, BodyFormat::Utf8 as u16, c.ec, route.as_bytes(), "e".repeat(blen).as_bytes()) }
+        }
         "push" => { peer.send(frame(0, trigger_id, 1, 2, 0, b"/p", b"null")).await?; frame(1, 0, 1, 0, 0, b"/n", &notify_body) }
         "broadcast" => {
             let t0 = Instant::now();
@@ -311,7 +323,7 @@ fn run_case(line: &str) -> String {
     let parsed = (|| -> Option<Case> {
         let limit = match f.get("limit")?.as_str() { "-" => None, s => Some(ph(s)?) };
         let qlen = match f.get("qlen") { Some(s) => Some(ph(s)?), None => None };
-        Some(Case { path: f.get("path")?.clone(), limit, flen: ph(f.get("flen")?)?, id: ph(f.get("id")?)?, qlen })
+        Some(Case { path: f.get("path")?.clone(), limit, flen: ph(f.get("flen")?)?, id: ph(f.get("id")?)?, qlen, ec: f.get("ec").and_then(|e| ph(e)).unwrap_or(0) as u32 })
     })();
     let Some(c) = parsed else { return "crash=badcase:parse".into() };
     if c.flen < 48 + QLEN || c.flen > (1 << 31) { return "crash=badcase:flen".into(); }
@@ -355,6 +367,16 @@ fn gen_cases(seed: u64, thorough: bool) -> Vec<String> {
                 };
                 let i = out.len();
                 out.push(format!("i={i} path={path} limit={} flen={} id={} ntf={ntf} ec=0", limit.map(hx).unwrap_or_else(|| "-".into()), hx(flen), hx(id)));
+            }
+        }
+    }
+    // handler errors (an error response is a response like any other) around the limit
+    for l in limits.iter().flatten() {
+        for path in ["inline", "offreader", "proxy"] {
+            for flen in [l - 1, *l, l + 1, l + 2, 2 * l] {
+                let id = if rng.chance(1, 3) { rng.boundary(64) } else { rng.next() };
+                let i = out.len();
+                out.push(format!("i={i} path={path} limit={} flen={} id={} ntf=0 ec={}", hx(*l), hx(flen), hx(id), hx(*rng.pick(&[4u64, 6, 7]))));
             }
         }
     }
